@@ -129,6 +129,14 @@ def answer (line : String) : String :=
     match n.toNat? with
     | some n => fmtExcept ((avxPlanFft .f32 true (fun _ => false) n).map AvxPlan.text)
     | none => "bad-op"
+  | ["recipe", "avx32n", n] =>
+    match n.toNat? with
+    | some n => fmtExcept ((avxPlanFft .f32 false (fun _ => false) n).map AvxPlan.text)
+    | none => "bad-op"
+  | ["recipe", "avx64n", n] =>
+    match n.toNat? with
+    | some n => fmtExcept ((avxPlanFft .f64 false (fun _ => false) n).map AvxPlan.text)
+    | none => "bad-op"
   | ["recipe", "avx64", n] =>
     match n.toNat? with
     | some n => fmtExcept ((avxPlanFft .f64 true (fun _ => false) n).map AvxPlan.text)
